@@ -6,12 +6,13 @@ Environment:
   TALLY_VERIF_ROOT      only effects on paths under this directory are counted / logged
   TALLY_VERIF_LOG       ndjson effect log (must lie outside ROOT)
   TALLY_VERIF_CRASH_AT  k : os._exit(77) right after the k-th effect has been performed
-  TALLY_VERIF_TORN      f in [0,1): when the crashing effect is a write (or a file copy), only that fraction of the data reaches the disk
+  TALLY_VERIF_TORN      f in [0,1): when the crashing effect is a flush / close (or a file copy), only that fraction of the data reaches the disk
   TALLY_VERIF_FAULT_AT  k : the k-th effect raises OSError(EIO) instead of being performed
 
 An "effect" is one externally visible mutation of the file system, at the granularity the code performs it:
-  open-w / open-a / open-x (create or truncate), write (one f.write call, flushed immediately so that the
-  disk always shows exactly the writes performed so far), close, move, mkdir, rename, remove, copy, rmtree.
+  open-w / open-a / open-x (create or truncate), write (one f.write call: the data is BUFFERED, as Python does, and reaches the
+  disk with the next flush / close of that file - each an effect of its own, which can be torn), move, mkdir, rename, remove,
+  copy, rmtree.
 """
 import os
 import sys
@@ -63,12 +64,21 @@ if os.environ.get('TALLY_VERIF') == '1' and os.environ.get('TALLY_VERIF_ROOT'):
             os._exit(77)
 
     class _TracedFile:
+        """A file opened for writing under ROOT.  Python buffers what a program writes until the file is flushed or closed;
+        a killed process loses what it had not flushed.  The shim makes that deterministic: data handed to write() is held
+        HERE and reaches the disk at flush() / close() (one effect each, which may be torn: only a prefix arrives).  A kill
+        right after a write() therefore leaves the disk as it was before that write - which is what happens to a real process
+        for anything smaller than its buffer."""
+
         def __init__(self, f, path):
             object.__setattr__(self, '_f', f)
             object.__setattr__(self, '_path', path)
             object.__setattr__(self, '_closed', False)
+            object.__setattr__(self, '_pending', [])
 
         def __getattr__(self, name):
+            if name in ('seek', 'tell', 'read', 'readline', 'readlines', 'truncate', 'fileno', 'detach', 'buffer'):
+                self._drain()
             return getattr(self._f, name)
 
         def __setattr__(self, name, value):
@@ -84,31 +94,65 @@ if os.environ.get('TALLY_VERIF') == '1' and os.environ.get('TALLY_VERIF_ROOT'):
         def __iter__(self):
             return iter(self._f)
 
+        def _drain(self, upto=None):
+            """Hand the held data (or a prefix of it) to the real file."""
+            if not self._pending:
+                return 0
+            data = self._pending[0][:0].join(self._pending)
+            del self._pending[:]
+            if upto is not None:
+                data = data[:upto]
+            self._f.write(data)
+            return len(data)
+
+        def _held(self):
+            return sum(len(x) for x in self._pending)
+
         def write(self, data):
             k = _before('write', self._path, n=len(data))
-            if _CRASH_AT == k and _TORN < 1:
-                cut = int(len(data) * _TORN)
-                self._f.write(data[:cut])
-                self._f.flush()
-                _log(dict(k=k, kind='write', path=_rel(self._path), n=len(data), torn=cut))
-                _log(dict(k=k, crash=True))
-                os._exit(77)
-            r = self._f.write(data)
-            self._f.flush()
-            _after(k, 'write', self._path, n=len(data))
-            return r
+            self._pending.append(data)
+            _after(k, 'write', self._path, n=len(data), buffered=True)
+            return len(data)
 
         def writelines(self, lines):
             for line in lines:
                 self.write(line)
 
+        def _sync(self, kind):
+            n = self._held()
+            k = _before(kind, self._path, n=n)
+            if _CRASH_AT == k and _TORN < 1 and n:
+                cut = int(n * _TORN)
+                self._drain(cut)
+                self._f.flush()
+                _log(dict(k=k, kind=kind, path=_rel(self._path), n=n, torn=cut))
+                _log(dict(k=k, crash=True))
+                os._exit(77)
+            self._drain()
+            if kind == 'close':
+                self._f.close()
+            else:
+                self._f.flush()
+            _after(k, kind, self._path, n=n)
+
+        def flush(self):
+            if self._closed:
+                return
+            self._sync('flush')
+
         def close(self):
             if self._closed:
                 return
             object.__setattr__(self, '_closed', True)
-            k = _before('close', self._path)
-            self._f.close()
-            _after(k, 'close', self._path)
+            self._sync('close')
+
+        def __del__(self):
+            # a file object dropped without close(): the interpreter closes (and so flushes) it at that moment
+            try:
+                if not self._closed:
+                    self.close()
+            except BaseException:
+                pass
 
     def _open(file, mode='r', *args, **kwargs):
         writing = isinstance(mode, str) and any(c in mode for c in 'wax+')
